@@ -54,6 +54,8 @@ type planItem struct {
 	thorough uint64
 	// only in thorough tier
 	thoroughOnly bool
+	// cold: one OS process per run, started with VERIF_COLD=1 (first-use races)
+	cold bool
 }
 
 type checkDef struct {
@@ -310,7 +312,7 @@ func (v *variant) env(outDir, id string) []string {
 		e = append(e, "GODEBUG="+v.godebug)
 	}
 	if v.race {
-		e = append(e, "GORACE=log_path="+filepath.Join(outDir, "race."+id)+" halt_on_error=0 exitcode=0 history_size=2")
+		e = append(e, "GORACE=log_path="+filepath.Join(outDir, "race."+id)+" halt_on_error=0 exitcode=0 atexit_sleep_ms=0 history_size=2")
 	}
 	return e
 }
@@ -333,12 +335,13 @@ func runItem(b *builder, it planItem, outRoot string, deadline float64) *itemRes
 	}
 	res.outDir = outDir
 	nw := jobs
-	if uint64(nw) > runs {
+	if uint64(nw) > runs || it.cold {
 		nw = int(runs)
 	}
 	var wg sync.WaitGroup
 	errs := make([]string, nw)
 	t0 := time.Now()
+	sem := make(chan struct{}, jobs)
 	for k := 0; k < nw; k++ {
 		k := k
 		cnt := runs / uint64(nw)
@@ -354,11 +357,19 @@ func runItem(b *builder, it planItem, outRoot string, deadline float64) *itemRes
 		if v.race {
 			args = append(args, "-racelog", filepath.Join(outDir, "race."+id))
 		}
+		if it.cold {
+			args = append(args, "-bitmapbits", "12")
+		}
 		wg.Add(1)
 		go func() {
 			defer wg.Done()
+			sem <- struct{}{}
+			defer func() { <-sem }()
 			c := exec.Command(bin, args...)
 			c.Env = v.env(outDir, id)
+			if it.cold {
+				c.Env = append(c.Env, "VERIF_COLD=1")
+			}
 			var eb bytes.Buffer
 			c.Stderr = &eb
 			c.Stdout = &eb
@@ -526,6 +537,9 @@ func runCheck(id string) int {
 	}
 	for _, it := range def.plan {
 		if it.thoroughOnly && tier != "thorough" {
+			continue
+		}
+		if (tier == "thorough" && it.thorough == 0) || (tier != "thorough" && it.quick == 0) {
 			continue
 		}
 		r := runItem(b, it, outRoot, deadline)
@@ -696,7 +710,7 @@ func replayOnce(b *builder, path string, rp *core.Replay) (bool, []core.Violatio
 		args = append(args, "-racelog", filepath.Join(tmp, "race.r"))
 	}
 	c := exec.Command(bin, args...)
-	c.Env = v.env(tmp, "r")
+	c.Env = append(v.env(tmp, "r"), coldEnv(rp.Phase)...)
 	var ob, eb bytes.Buffer
 	c.Stdout = &ob
 	c.Stderr = &eb
@@ -748,13 +762,26 @@ func confirm(b *builder, v found) (string, bool) {
 		rp.Minimised = true
 		rp.ShrinkExecs = execs
 		core.WriteJSON(v.Replay, rp)
-		ok, vs := replayOnce(b, v.Replay, rp)
+		ok, vs := false, []core.Violation(nil)
+		for attempt := 0; attempt < 2 && !ok; attempt++ {
+			ok, vs = replayOnce(b, v.Replay, rp)
+		}
 		if !ok {
-			return v.Replay, false
+			// the minimised tape does not re-detect the race reliably: report the original tape
+			fmt.Printf("  (minimised tape of %s did not re-detect the race; keeping the recorded tape)\n", v.ID())
+			rp.SetRec(rec)
+			rp.Minimised = false
+			core.WriteJSON(v.Replay, rp)
+			for attempt := 0; attempt < 3 && !ok; attempt++ {
+				ok, vs = replayOnce(b, v.Replay, rp)
+			}
+			if !ok {
+				return v.Replay, false
+			}
 		}
 		for _, x := range vs {
 			if x.Class == "data-race" {
-				// record what a fresh process prints for the minimised tape
+				// record what a fresh process prints for the final tape
 				rp.Key, rp.Detail = x.Key, x.Detail
 				core.WriteJSON(v.Replay, rp)
 				break
@@ -829,7 +856,7 @@ func determinismSample(b *builder, def *checkDef, results []*itemResult, outRoot
 			args = append(args, "-racelog", filepath.Join(r.outDir, "race.det"))
 		}
 		c := exec.Command(bin, args...)
-		env := v.env(r.outDir, "det")
+		env := append(v.env(r.outDir, "det"), coldEnv(r.item.workload)...)
 		env = append(env, "GOMAXPROCS=5")
 		c.Env = env
 		var eb bytes.Buffer
@@ -949,4 +976,13 @@ func recordTape(b *builder, vn, workload string, idx uint64) core.Rec {
 	}
 	rp := core.Replay{Tape: out.Tape}
 	return rp.Rec()
+}
+
+// coldEnv: workers of the cold-start workload must not run harness initialisers
+// that call into the library.
+func coldEnv(workload string) []string {
+	if workload == "C18D" {
+		return []string{"VERIF_COLD=1"}
+	}
+	return nil
 }
